@@ -171,7 +171,54 @@ theorem delSlice_spec_all {α} (l : List α) : PyL.delSlice l none none none = .
 /-- The swap loop reverses the items (no trailing bits). -/
 theorem reverse_refines (c : Codec V) (hL : 0 < c.w) (d : Bits) (ht : trailing c.w d = []) :
     (reverse c d).view c = .ok ((), (items c d).reverse) ∧ trailing c.w (reverse c d).data = [] := by
-  sorry
+  obtain ⟨bs, t, hbs, ht', rfl, hch, htr, hlen, hit⟩ := blocks_view c hL d
+  rw [htr] at ht
+  subst ht
+  have hN : (bs.flatten ++ ([] : Bits)).length = bs.length * c.w := by
+    rw [List.append_nil, blocks_flatten_length c.w bs hbs]
+  have hm0 : (bs.flatten ++ ([] : Bits)).length % c.w = 0 := by
+    rw [hN]; exact Nat.mul_mod_left _ _
+  have hs : reverse c (bs.flatten ++ []) = ⟨bs.reverse.flatten ++ [], .ok ()⟩ := by
+    unfold reverse
+    rw [if_neg (not_not.mpr hm0)]
+    unfold Py.rangeList
+    rw [List.foldl_map]
+    generalize hmdef : Py.rangeLen 0 (((bs.flatten ++ ([] : Bits)).length / 2 : Nat) : Int) (c.w : Int) = m
+    have hlt : ∀ k : Nat, k < m ↔ k * c.w < (bs.length * c.w) / 2 := by
+      intro k
+      rw [← hmdef, lt_rangeLen_pos _ _ _ (by omega) k, hN]
+      have e : (0 : Int) + (k : Int) * (c.w : Int) = ((k * c.w : Nat) : Int) := by push_cast; ring
+      rw [e]
+      omega
+    have h1 : ∀ k < m, 2 * k + 1 ≤ bs.length := by
+      intro k hk
+      have hk' := (hlt k).mp hk
+      have h2 : (2 * k) * c.w < bs.length * c.w := by
+        have : (2 * k) * c.w = 2 * (k * c.w) := by ring
+        omega
+      have := Nat.lt_of_mul_lt_mul_right h2
+      omega
+    have h2 : bs.length ≤ 2 * m + 1 := by
+      by_contra hcon
+      have hge : 2 * m + 2 ≤ bs.length := by omega
+      have hmul : (2 * m + 2) * c.w ≤ bs.length * c.w := Nat.mul_le_mul_right _ hge
+      have e : (2 * m + 2) * c.w = 2 * (m * c.w) + 2 * c.w := by ring
+      have : m * c.w < (bs.length * c.w) / 2 := by omega
+      have := (hlt m).mpr this
+      omega
+    have h3 : 2 * m ≤ bs.length + 1 := by
+      cases m with
+      | zero => omega
+      | succ k => have := h1 k (by omega); omega
+    have := swap_fold c.w bs hbs m h1
+    simp only at this
+    rw [this, swapped_full bs m h2 h3]
+  have hbr : ∀ b ∈ bs.reverse, b.length = c.w := fun b hb => hbs b (List.mem_reverse.mp hb)
+  have hv := view_of_blocks c hL bs.reverse [] hbr ht'
+  rw [hs, hit]
+  refine ⟨?_, hv.2.1⟩
+  unfold Step.view
+  simp only [hv.1, List.map_reverse]
 
 /-- With trailing bits `reverse` raises and changes nothing. -/
 theorem reverse_trailing_rejects (c : Codec V) (hL : 0 < c.w) (d : Bits) (ht : trailing c.w d ≠ []) :
